@@ -305,6 +305,105 @@ pub fn main(args: &Args) -> std::io::Result<()> {
                 }
             }
         }
+        // ---------------- the routes the property names: Path::builder().flattened(e) / .transformed(m) / .with_svg(),
+        // through the `Build` trait's adapters (builders with attributes), the NoAttributes builder's own adapters, and
+        // WithSvg::{flattened, transformed, set_transform}
+        {
+            let want_lines: Vec<(Point, Vec<f32>)> = expect.iter().filter_map(|c| match c { Call::Begin(p, a) | Call::Line(p, a) => Some((*p, a.clone())), _ => None }).collect();
+            let read = |p: &Path| -> Vec<(Point, Vec<f32>)> {
+                p.iter_with_attributes().filter_map(|e| match e { Event::Begin { at } => Some((at.0, at.1.to_vec())), Event::Line { to, .. } => Some((to.0, to.1.to_vec())), Event::Quadratic { to, .. } | Event::Cubic { to, .. } => Some((to.0, vec![f32::NAN])), Event::End { .. } => None }).collect()
+            };
+            let r = catch(AssertUnwindSafe(|| {
+                use lyon_path::traits::Build;
+                let mut fb = Path::builder_with_attributes(n_attr).flattened(tol);
+                spec.replay(&mut fb);
+                let f = fb.build();
+                let mut tb = Path::builder_with_attributes(n_attr).transformed(tr);
+                spec.replay(&mut tb);
+                let t = tb.build();
+                (f, t)
+            }));
+            match r {
+                None => st.fail(jobj(&[("what", jstr("builder_with_attributes().flattened / .transformed panicked")), ("input", jstr(&label))])),
+                Some((f, t)) => {
+                    if read(&f) != want_lines {
+                        st.fail(jobj(&[("what", jstr("Path::builder_with_attributes(n).flattened(e) does not build the flattened program")), ("input", jstr(&label))]));
+                    }
+                    let tb: Vec<PathEvent> = path.iter().transformed(&tr).collect();
+                    if positions(&t) != tb {
+                        st.fail(jobj(&[("what", jstr("Path::builder_with_attributes(n).transformed(m) differs from transforming the iterator")), ("input", jstr(&label))]));
+                    }
+                }
+            }
+            if n_attr == 0 {
+                let r = catch(AssertUnwindSafe(|| {
+                    // NoAttributes adapters
+                    let mut fb = Path::builder().flattened(tol);
+                    let mut tb = Path::builder().transformed(tr);
+                    // with_svg + its adapters; set_transform before the first command
+                    let mut sf = Path::builder().with_svg().flattened(tol);
+                    let mut stb = Path::builder().with_svg().transformed(Transform2D::identity());
+                    stb.set_transform(tr);
+                    for sub in &spec.subs {
+                        fb.begin(sub.start);
+                        tb.begin(sub.start);
+                        sf.move_to(sub.start);
+                        stb.move_to(sub.start);
+                        for g in &sub.segs {
+                            match g {
+                                Seg::Line(p, _) => {
+                                    fb.line_to(*p);
+                                    tb.line_to(*p);
+                                    sf.line_to(*p);
+                                    stb.line_to(*p);
+                                }
+                                Seg::Quad(c, p, _) => {
+                                    fb.quadratic_bezier_to(*c, *p);
+                                    tb.quadratic_bezier_to(*c, *p);
+                                    sf.quadratic_bezier_to(*c, *p);
+                                    stb.quadratic_bezier_to(*c, *p);
+                                }
+                                Seg::Cubic(c1, c2, p, _) => {
+                                    fb.cubic_bezier_to(*c1, *c2, *p);
+                                    tb.cubic_bezier_to(*c1, *c2, *p);
+                                    sf.cubic_bezier_to(*c1, *c2, *p);
+                                    stb.cubic_bezier_to(*c1, *c2, *p);
+                                }
+                            }
+                        }
+                        if sub.close {
+                            fb.close();
+                            tb.close();
+                            sf.close();
+                            stb.close();
+                        } else {
+                            fb.end(false);
+                            tb.end(false);
+                        }
+                    }
+                    (fb.build(), tb.build(), sf.build(), stb.build())
+                }));
+                match r {
+                    None => st.fail(jobj(&[("what", jstr("Path::builder() adapter route panicked")), ("input", jstr(&label))])),
+                    Some((f, t, sf, stb)) => {
+                        let tb: Vec<PathEvent> = path.iter().transformed(&tr).collect();
+                        if read(&f) != want_lines {
+                            st.fail(jobj(&[("what", jstr("Path::builder().flattened(e) does not build the flattened program")), ("input", jstr(&label))]));
+                        }
+                        if positions(&t) != tb {
+                            st.fail(jobj(&[("what", jstr("Path::builder().transformed(m) differs from transforming the iterator")), ("input", jstr(&label))]));
+                        }
+                        // through with_svg an open sub-path is ended by the next move_to / build: same events
+                        if read(&sf) != want_lines || positions(&sf) != positions(&f) {
+                            st.fail(jobj(&[("what", jstr("Path::builder().with_svg().flattened(e) does not build the flattened program")), ("input", jstr(&label))]));
+                        }
+                        if positions(&stb) != tb {
+                            st.fail(jobj(&[("what", jstr("with_svg().transformed + set_transform differs from transforming the iterator")), ("input", jstr(&label))]));
+                        }
+                    }
+                }
+            }
+        }
         st.sample(format!("{} -> {} calls", label, calls.len()));
         writeln!(idx, "{}\t{}", id, label).ok();
         w.push(format!(
